@@ -211,8 +211,14 @@ impl StorageEngine {
             )));
         }
 
-        // Block creation if a same-name KG is being dropped (prevents RC-2)
-        if self.dropping_kgs.read().contains(name) {
+        // Block creation if a same-name KG is being dropped (prevents RC-2). The read guard is
+        // held until the graph is created and registered: a drop marks the name in dropping_kgs
+        // (write side) before it removes the graph, so it cannot start between this check and
+        // the insertion below. Releasing the guard right after the check let a create slip in
+        // behind a drop that had just begun: the new graph was acknowledged and then destroyed
+        // by the old drop's clean-up, and gone after the next restart.
+        let dropping_guard = self.dropping_kgs.read();
+        if dropping_guard.contains(name) {
             return Err(StorageError::Other(format!(
                 "Knowledge graph '{name}' is being dropped, cannot create"
             )));
